@@ -540,3 +540,99 @@ class LessThan:
             ],
         )
         return d
+
+
+# ------------------------------------------------------------ harness helpers
+class StartTimeout(Exception):
+    pass
+
+
+def _children_of(pid: int) -> list[int]:
+    out = []
+    for d in os.listdir('/proc'):
+        if not d.isdigit():
+            continue
+        try:
+            with open('/proc/%s/stat' % d) as f:
+                st = f.read()
+            ppid = int(st[st.rindex(')') + 2:].split()[1])
+        except (OSError, ValueError, IndexError):
+            continue
+        if ppid == pid:
+            out.append(int(d))
+    return out
+
+
+def kill_child_servers() -> int:
+    """Kill attached runtime servers (and their workers) that are children of
+    this process. Used after a start-up that never completed: on a heavily
+    loaded machine the workers give up connecting after ~13 s and the server
+    then waits for them forever."""
+    import signal as _signal
+    n = 0
+    for c in _children_of(os.getpid()):
+        try:
+            with open('/proc/%d/cmdline' % c) as f:
+                cmd = f.read()
+        except OSError:
+            continue
+        if 'start_attached_server' not in cmd:
+            continue
+        for g in _children_of(c):
+            try:
+                os.kill(g, _signal.SIGKILL)
+            except OSError:
+                pass
+        try:
+            os.kill(c, _signal.SIGKILL)
+            os.waitpid(c, 0)
+        except OSError:
+            pass
+        n += 1
+    return n
+
+
+def safe_compiler(num_workers: int, attempts: int = 4, first_wait: int = 75) -> Any:
+    """`compiledrv.new_compiler` under a start-up watchdog (main thread of a
+    batch process only; the process owns one compiler at a time)."""
+    import signal as _signal
+    from vlib.compiledrv import new_compiler
+
+    def _alarm(signum: int, frame: Any) -> None:
+        raise StartTimeout()
+
+    last: Exception | None = None
+    for k in range(attempts):
+        old = _signal.signal(_signal.SIGALRM, _alarm)
+        _signal.alarm(first_wait + 45 * k)
+        try:
+            return new_compiler(num_workers)
+        except StartTimeout as e:
+            last = e
+            kill_child_servers()
+        except RuntimeError as e:
+            last = e
+            kill_child_servers()
+        finally:
+            _signal.alarm(0)
+            _signal.signal(_signal.SIGALRM, old)
+    raise RuntimeError('could not start a compiler in %d attempts: %r' % (attempts, last))
+
+
+def close_compiler(comp: Any) -> None:
+    """Graceful close under a watchdog, then make sure nothing is left."""
+    import signal as _signal
+
+    def _alarm(signum: int, frame: Any) -> None:
+        raise StartTimeout()
+
+    old = _signal.signal(_signal.SIGALRM, _alarm)
+    _signal.alarm(20)
+    try:
+        comp.close()
+    except BaseException:  # noqa
+        pass
+    finally:
+        _signal.alarm(0)
+        _signal.signal(_signal.SIGALRM, old)
+    kill_child_servers()
